@@ -446,3 +446,26 @@ def t23():
     a = Alias()
     return (a.times(2), a.plus(2), Alias.double_scale, a.table['m'](a, 5), getattr(tagged_fn, 'tagged', False),
             getattr(plain_fn, 'tagged', False), hasattr(plain_fn, 'tagged'), tagged_fn(), plain_fn.__name__)
+
+
+class Span(namedtuple('Span', ['lo', 'hi'])):
+    """a record with methods"""
+    __slots__ = ()
+
+    def width(self):
+        return self.hi - self.lo
+
+    def shifted(self, d):
+        return self._replace(lo=self.lo + d, hi=self.hi + d)
+
+    @property
+    def mid2(self):
+        return self.lo + self.hi
+
+
+def t24():
+    s = Span(1, 4)
+    lo, hi = s
+    t = s.shifted(2)
+    return (s.width(), lo, hi, s[1], len(s), t.lo, t.hi, t.width(), s.mid2, isinstance(s, tuple), s == (1, 4), t == Span(3, 6),
+            s._fields, s._asdict() == {'lo': 1, 'hi': 4}, Span(hi=9, lo=2).width(), [v for v in t])
